@@ -594,7 +594,9 @@ def main(argv=None):
         "violations": len(violations),
     }
     os.makedirs(os.path.join(VERIF, "evidence"), exist_ok=True)
-    json.dump(ev, open(os.path.join(VERIF, "evidence", f"{pid}.json"), "w"), indent=1, default=str)
+    evpath = os.path.join(VERIF, "evidence", f"{pid}.json") if not (a.unit or os.environ.get("PYVC_SCRATCH_EVIDENCE")) else os.path.join(VERIF, "replays", f"evidence_{pid}.scratch.json")
+    os.makedirs(os.path.dirname(evpath), exist_ok=True)
+    json.dump(ev, open(evpath, "w"), indent=1, default=str)
     print(f"{pid}: obligations={n_obl} discharged={n_dis} vcs={n_vcs} paths={ev['coverage']['paths']} "
           f"solver={solver_s:.1f}s wall={wall:.1f}s violations={len(violations)} undecided={len(undecided)} errors={len(errors)}")
     if errors:
